@@ -393,6 +393,269 @@ theorem witness_delete_after_freeze :
     (simulate sc1 u1 m1 t1).toOption.map (fun s => (s.cfg.get "t.k", (s.cfg.delete "t").get "t.k", (s.cfg.delete "t").get "s.k")) =
       some (some "300", none, some "10") := by decide
 
+/-! ### 5. Refused operations (lesson 16): a context survives a refused `add_components` and a `setup` that raises
+
+`add_components` is not transactional (`Viv.Components.addComponentsK` returns the state a call leaves behind together
+with its verdict; a caller may catch the error and go on with the same context). What is proved about ANY history of
+accepted and refused calls: the verdicts are those of the all-or-nothing reading; a call only ever APPENDS entries at
+the defaults layer (a prefix of the defaults of its flattened components) and names to the component set; nothing is
+taken back; so no refusal – and no sequence of refusals, corrected batches and repeats – changes what the
+configuration returns at a key the user supplied, and every component of every ACCEPTED call is set up exactly once. -/
+
+/-- the verdict of a call is that of the all-or-nothing model (`addComponentsK` only adds the state left behind) -/
+theorem refused_batch_same_verdict (s : Sim) (ts : List Tree) :
+    (∀ s', addComponents s ts = .ok s' ↔ addComponentsK s ts .none = (s', none)) ∧
+    (∀ e, addComponents s ts = .error e ↔ (addComponentsK s ts .none).2 = some e) := by
+  have h := addComponentsK_agree s ts
+  rcases hk : addComponentsK s ts .none with ⟨s1, _ | e1⟩ <;> rw [hk] at h <;> simp only at h <;> rw [h]
+  · exact ⟨fun s' => by simp, fun e => by simp⟩
+  · exact ⟨fun s' => by simp, fun e => by simp⟩
+
+/-- what ANY call leaves behind (accepted, refused for a name / a default / the structure, or interrupted by an exception
+of the user's `sub_components` / `configuration_defaults`): new entries only at the defaults layer – a prefix of the
+defaults of the flattened batch –, a prefix of its names appended to the component set (all of them iff accepted),
+no duplicate names, the managers / freeze flag / lifecycle / setup logs untouched, the configuration still well-formed -/
+theorem refused_batch_leaves (s : Sim) (ts : List Tree) (f : Fault) :
+    ∃ added k, (addComponentsK s ts f).1.cfg.entries = s.cfg.entries ++ added ∧
+      added <+: compEntries (flatten ts) ∧ (∀ e ∈ added, e.layer = defaultsLayer) ∧
+      (addComponentsK s ts f).1.components = s.components ++ ((flatten ts).take k).map Tree.name ∧
+      ((addComponentsK s ts f).2 = none → k = (flatten ts).length ∧ added = compEntries (flatten ts)) ∧
+      (s.components.Nodup → (addComponentsK s ts f).1.components.Nodup) ∧
+      (s.cfg.WF → (addComponentsK s ts f).1.cfg.WF) ∧
+      (addComponentsK s ts f).1.managers = s.managers ∧ (addComponentsK s ts f).1.cfg.frozen = s.cfg.frozen ∧
+      (addComponentsK s ts f).1.started = s.started ∧ (addComponentsK s ts f).1.log = s.log := by
+  obtain ⟨added, k, hg, hp, hc, hn, hm, hfull⟩ := addComponentsK_spec s ts f
+  exact ⟨added, k, hg.entries, hp, fun e he => compEntries_layer _ e (hp.subset he), hc, hfull, hn, hg.wf, hm,
+    hg.frozen, hg.started, hg.log⟩
+
+/-- a state reached from `s` by appending entries at the defaults layer reads every user-supplied key as before -/
+theorem user_value_survives (c c' : Config) (added : List Entry) (he : c'.entries = c.entries ++ added)
+    (hl : ∀ e ∈ added, e.layer = defaultsLayer) (hwf : c'.WF) (p : Path) (v : Val) :
+    ((⟨"override", p, v⟩ : Entry) ∈ c.entries → c'.get p = some v) ∧
+    ((⟨"model_override", p, v⟩ : Entry) ∈ c.entries →
+      (∀ e ∈ c.entries, ¬ (e.layer = "override" ∧ e.path = p)) → c'.get p = some v) := by
+  constructor
+  · intro h
+    exact override_wins c' hwf p v (by rw [he]; exact List.mem_append_left _ h)
+  · intro h hno
+    apply model_wins c' hwf p v (by rw [he]; exact List.mem_append_left _ h)
+    intro e hmem ⟨hlay, hp⟩
+    rw [he] at hmem
+    rcases List.mem_append.mp hmem with hmem | hmem
+    · exact hno e hmem ⟨hlay, hp⟩
+    · exact defaultsLayer_ne.1 ((hl e hmem).symm.trans hlay)
+
+/-- a refused (or accepted) call never changes the value read at a key the user supplied: an override argument
+always, a model-specification value unless an override argument names the key -/
+theorem refused_batch_keeps_user_value (s : Sim) (ts : List Tree) (f : Fault) (hwf : s.cfg.WF) (p : Path) (v : Val) :
+    ((⟨"override", p, v⟩ : Entry) ∈ s.cfg.entries → (addComponentsK s ts f).1.cfg.get p = some v) ∧
+    ((⟨"model_override", p, v⟩ : Entry) ∈ s.cfg.entries →
+      (∀ e ∈ s.cfg.entries, ¬ (e.layer = "override" ∧ e.path = p)) → (addComponentsK s ts f).1.cfg.get p = some v) := by
+  obtain ⟨added, _, he, _, hl, _, _, _, hw, _⟩ := refused_batch_leaves s ts f
+  exact user_value_survives s.cfg _ added he hl (hw hwf) p v
+
+/-- … nor does any HISTORY of calls (refusals caught, corrected batches, exact repeats, in any order) -/
+theorem history_keeps_user_values (s : Sim) (bs : List (List Tree × Fault)) (hwf : s.cfg.WF) (p : Path) (v : Val) :
+    ((⟨"override", p, v⟩ : Entry) ∈ s.cfg.entries → (addManyK s bs).cfg.get p = some v) ∧
+    ((⟨"model_override", p, v⟩ : Entry) ∈ s.cfg.entries →
+      (∀ e ∈ s.cfg.entries, ¬ (e.layer = "override" ∧ e.path = p)) → (addManyK s bs).cfg.get p = some v) := by
+  obtain ⟨added, _, hg, hl, _, _, _⟩ := addManyK_spec bs s
+  exact user_value_survives s.cfg _ added hg.entries hl (hg.wf hwf) p v
+
+/-- the components of an ACCEPTED call stay registered through everything that follows -/
+theorem accepted_batch_stays_registered (s : Sim) (pre post : List (List Tree × Fault)) (ts : List Tree) (f : Fault)
+    (hacc : (addComponentsK (addManyK s pre) ts f).2 = none) :
+    ∀ t ∈ flatten ts, t.name ∈ (addManyK s (pre ++ (ts, f) :: post)).components := by
+  intro t ht
+  obtain ⟨_, k, _, _, hc, _, _, hfull⟩ := addComponentsK_spec (addManyK s pre) ts f
+  obtain ⟨hk, _⟩ := hfull hacc
+  obtain ⟨_, more, _, _, hc', _, _⟩ := addManyK_spec post (addComponentsK (addManyK s pre) ts f).1
+  have hsplit : addManyK s (pre ++ (ts, f) :: post) = addManyK (addComponentsK (addManyK s pre) ts f).1 post := by
+    rw [addManyK_append]; simp [addManyK]
+  rw [hsplit, hc', hc, hk, List.take_length]
+  exact List.mem_append_left _ (List.mem_append_right _ (List.mem_map_of_mem ht))
+
+/-- `setup()` from ANY state in which it is admitted: every manager, then every registered component, each exactly once -/
+theorem setup_each_registered_once (sc : Script) (s s' : Sim) (h : setup sc s = .ok s') :
+    s'.log = s.log ++ (s.managers ++ s.components) ∧ (s.managers ++ s.components).Nodup := by
+  obtain ⟨_, hr⟩ := setup_ok sc s s' h
+  obtain ⟨_, _, _, _, hl, hnd⟩ := runActs_steps sc setupActs s s' hr
+  obtain ⟨_, _, _, hn1⟩ := freeze_precedes_setup.2.2
+  rw [hn1] at hl hnd
+  exact ⟨by simpa using hl, hnd (by decide)⟩
+
+/-- the whole bootstrap with a history of accepted and refused calls before `setup()`: the user's values win, every
+object read the final values, nothing could be written from `setup`, the log is the managers followed by the registered
+components without repetition – and (previous two theorems) every component of an accepted call is among them -/
+theorem user_wins_despite_refusals (sc : Script) (user : List (String × Path × Val)) (mgrs : List (String × Defaults))
+    (bs : List (List Tree × Fault)) (s : Sim) (h : simulateK sc user mgrs bs = .ok s) (p : Path) (v : Val) :
+    (("configuration", p, v) ∈ user → s.cfg.get p = some v) ∧
+    (("model_specification", p, v) ∈ user → (∀ w, ("configuration", p, w) ∉ user) → s.cfg.get p = some v) ∧
+    (∀ x ∈ s.seen, x.2 = sc.probes.map s.cfg.get) ∧ (∀ x ∈ s.tried, x.2.2 = false) ∧
+    s.log = mgrs.map (·.1) ++ s.components ∧ s.log.Nodup ∧ s.cfg.frozen = true := by
+  unfold simulateK at h
+  obtain ⟨s1, h1, h⟩ := (bind_ok _ _ _).mp h
+  obtain ⟨s2, h2, h⟩ := (bind_ok _ _ _).mp h
+  obtain ⟨hu, g1, m1, c1⟩ := users_ok _ _ _ h1
+  obtain ⟨g2, m2, _, c2⟩ := mgrs_ok _ _ _ h2
+  have g12 := g1.trans g2
+  have hwf2 : s2.cfg.WF := g12.wf (wf_empty _ rfl)
+  have he2 : s2.cfg.entries = user.map userEntry ++ mgrEntries mgrs := by simpa using g12.entries
+  obtain ⟨added, more, g3, hl3, hc3, _, hm3⟩ := addManyK_spec bs s2
+  obtain ⟨hlog, hnd⟩ := setup_each_registered_once sc _ s h
+  obtain ⟨_, hr⟩ := setup_ok sc _ s h
+  obtain ⟨hff, hef, _, _⟩ := freeze_precedes_setup.2.2
+  have q := runActs_quiet sc setupActs _ s hr (hff _)
+  obtain ⟨hm', hc', hf', _, _, _⟩ := runActs_steps sc setupActs _ s hr
+  have hget := get_of_entries (addManyK s2 bs).cfg s.cfg q.entries
+  obtain ⟨hms, hcf⟩ := user_updates_target
+  have hkeep := history_keeps_user_values s2 bs hwf2 p v
+  have hlog0 : (addManyK s2 bs).log = [] := by rw [g3.log, g12.log]
+  have hseen0 : (addManyK s2 bs).seen = [] := by rw [g3.seen, g12.seen]
+  have htried0 : (addManyK s2 bs).tried = [] := by rw [g3.tried, g12.tried]
+  have hmgr : (addManyK s2 bs).managers = mgrs.map (·.1) := by rw [hm3, m2, m1]; simp
+  refine ⟨?_, ?_, ?_, ?_, ?_, ?_, by rw [hf', hef]⟩
+  · intro hm
+    rw [hget]
+    apply hkeep.1
+    rw [he2]
+    exact List.mem_append_left _ (List.mem_map.mpr ⟨_, hm, by simp [userEntry, hcf]⟩)
+  · intro hm hno
+    rw [hget]
+    apply hkeep.2
+    · rw [he2]
+      exact List.mem_append_left _ (List.mem_map.mpr ⟨_, hm, by simp [userEntry, hms]⟩)
+    · intro e hmem ⟨hlay, hp⟩
+      rw [he2] at hmem
+      rcases List.mem_append.mp hmem with hmem | hmem
+      · obtain ⟨u, huu, rfl⟩ := List.mem_map.mp hmem
+        obtain ⟨w, q', x⟩ := u
+        rcases hu _ huu with hw | hw | hw <;> simp only at hw <;> subst hw
+        · simp [userEntry, hms] at hlay
+        · simp only [userEntry] at hp; subst hp; exact hno x huu
+        · simp [userEntry, home_layer_below_defaults.1] at hlay
+      · simp only [mgrEntries, mkEntries, List.mem_flatMap, List.mem_map] at hmem
+        obtain ⟨_, _, _, _, rfl⟩ := hmem
+        exact defaultsLayer_ne.1 hlay
+  · obtain ⟨sn, hsn, hsf⟩ := q.seen
+    intro x hx; rw [hsn, hseen0] at hx; rw [hget]; exact hsf x (by simpa using hx)
+  · obtain ⟨tn, ht, htf⟩ := q.tried
+    intro x hx; rw [ht, htried0] at hx; exact htf x (by simpa using hx)
+  · rw [hlog, hlog0, hmgr, hc']; simp
+  · rw [hlog, hlog0]; simpa using hnd
+
+/-- the ordinary bootstrap is the history with one accepted call -/
+theorem simulate_is_history (sc : Script) (user : List (String × Path × Val)) (mgrs : List (String × Defaults))
+    (ts : List Tree) (s : Sim) (h : simulate sc user mgrs ts = .ok s) :
+    simulateK sc user mgrs [(ts, .none)] = .ok s := by
+  obtain ⟨s1, s2, s3, h1, h2, h3, h4⟩ := simulate_ok sc user mgrs ts s h
+  have hk := ((refused_batch_same_verdict s2 ts).1 s3).mp h3
+  unfold simulateK
+  rw [h1]; simp only [bind, Except.bind]
+  rw [h2]; simp only [addManyK, List.foldl_cons, List.foldl_nil, hk]
+  exact h4
+
+/-- any two histories over the same user values – with or without the refused calls – agree on every user-supplied key -/
+theorem refusals_do_not_matter (sc sc' : Script) (user : List (String × Path × Val))
+    (mgrs mgrs' : List (String × Defaults)) (bs bs' : List (List Tree × Fault)) (s s' : Sim)
+    (h : simulateK sc user mgrs bs = .ok s) (h' : simulateK sc' user mgrs' bs' = .ok s') (p : Path) (v : Val)
+    (hu : ("configuration", p, v) ∈ user ∨
+          (("model_specification", p, v) ∈ user ∧ ∀ w, ("configuration", p, w) ∉ user)) :
+    s.cfg.get p = some v ∧ s'.cfg.get p = some v := by
+  rcases hu with hu | ⟨hu, hno⟩
+  · exact ⟨(user_wins_despite_refusals sc user mgrs bs s h p v).1 hu,
+           (user_wins_despite_refusals sc' user mgrs' bs' s' h' p v).1 hu⟩
+  · exact ⟨(user_wins_despite_refusals sc user mgrs bs s h p v).2.1 hu hno,
+           (user_wins_despite_refusals sc' user mgrs' bs' s' h' p v).2.1 hu hno⟩
+
+/-- in the generated `setup` skeleton every `setup_components` is preceded by a lifecycle transition (re-decided) -/
+theorem set_precedes_setup : ∀ b, startedFirst b setupActs = true := by
+  intro b; cases b <;> decide
+
+/-- a `setup()` that raises because the `setup` of one object raises (caught by the caller): nothing was written, the
+two sets are untouched, a prefix of managers ++ components has been set up, each once, every one of them read the
+values the configuration had – and the context cannot go on: the configuration is frozen, a second `setup()` is an
+invalid transition, `add_components` is refused by the lifecycle (C06 decides whether anything else may follow) -/
+theorem setup_fault_leaves (sc : Script) (boom : String) (s : Sim) (hs : s.started = false) :
+    ∃ names, (setupK sc boom s).1.cfg.entries = s.cfg.entries ∧
+      (setupK sc boom s).1.managers = s.managers ∧ (setupK sc boom s).1.components = s.components ∧
+      (setupK sc boom s).1.log = s.log ++ names ∧ names <+: (s.managers ++ s.components) ∧ names.Nodup ∧
+      (∃ new, (setupK sc boom s).1.seen = s.seen ++ new ∧ ∀ x ∈ new, x.2 = sc.probes.map s.cfg.get) ∧
+      (∃ new, (setupK sc boom s).1.tried = s.tried ++ new ∧ ∀ x ∈ new, x.2.2 = false) ∧
+      ((setupK sc boom s).2 ≠ none →
+        (∀ l p v, (setupK sc boom s).1.cfg.update l p v = .error .frozen) ∧
+        (∀ sc', setup sc' (setupK sc boom s).1 = .error .transition) ∧
+        (∀ ts, addComponents (setupK sc boom s).1 ts = .error .constraint)) := by
+  obtain ⟨hff, _, _, hn1⟩ := freeze_precedes_setup.2.2
+  obtain ⟨names, q, hm, hc, hl, _, h1, he⟩ := runActsK_spec sc boom setupActs s (hff _) (set_precedes_setup _)
+  have hK : setupK sc boom s = runActsK sc boom setupActs s := by simp [setupK, hs]
+  rw [hK]
+  obtain ⟨hp, hnd⟩ := h1 (Nat.le_of_eq hn1)
+  refine ⟨names, q.entries, hm, hc, hl, hp, hnd, q.seen, q.tried, ?_⟩
+  intro hne
+  obtain ⟨hf, hst⟩ := he hne
+  exact ⟨fun l p v => update_frozen _ l p v hf, fun _ => by simp [setup, hst], fun _ => by simp [addComponents, hst]⟩
+
+/-- `setupK` is `setup` when the object that would raise is not registered -/
+theorem setup_fault_same_verdict (sc : Script) (boom : String) (s : Sim)
+    (hb : (s.managers ++ s.components).contains boom = false) :
+    setup sc s = match setupK sc boom s with
+      | (s', none) => .ok s'
+      | (_, some e) => .error e := by
+  unfold setup setupK
+  by_cases hs : s.started = true
+  · simp [hs]
+  · simp only [hs, Bool.false_eq_true, if_false]
+    exact runActsK_agree sc boom setupActs s hb
+
+/-- the user values of `witness_accepted` plus an override for a key that only a refused component will default -/
+def u2 : List (String × Path × Val) := u1 ++ [("configuration", "x.u", "77")]
+
+/-- non-vacuity on the concrete run of `witness_accepted` (user override `t.k = 300`, model specification `s.k = 10`):
+a batch refused for a clashing default half-way (`x` defaults the user's key `x.u` and a fresh key, then `s.j`, which `d`
+defaults) leaves `x`'s first defaults behind and its first member `w` registered – the user's 77 is still what is
+read; the corrected component is refused for the leftover; a duplicate name deep in a tree; a `configuration_defaults`
+that raises; a `sub_components` that raises; then `setup()` goes through and sets up everything registered once -/
+def b1 : List (List Tree × Fault) :=
+  [(t1, .none),
+   ([.node "w" [("w.k", "1")] [], .node "x" [("x.u", "7"), ("x.new", "8"), ("s.j", "9"), ("x.never", "0")] []], .none),
+   ([.node "x" [("x.u", "7"), ("x.new", "8")] []], .none),
+   ([.node "y" [("y.k", "1")] [.node "d" [("y.j", "2")] []]], .none),
+   ([.node "z1" [("z.a", "1")] [], .node "z2" [("z.b", "2")] []], .defs 1),
+   ([.node "q" [("q.a", "1")] []], .sub)]
+
+/-- the state in which the constructor hands the context to the caller: user values and managers -/
+def boot (user : List (String × Path × Val)) (mgrs : List (String × Defaults)) : Except Err Sim := do
+  let s ← user.foldlM (fun s u => userSet s u.1 u.2.1 u.2.2) ({} : Sim)
+  mgrs.foldlM (fun s m => addManager s m.1 m.2) s
+
+/-- the verdicts of a history of calls -/
+def verdictsK (s : Sim) : List (List Tree × Fault) → List (Option Err)
+  | [] => []
+  | b :: bs => (addComponentsK s b.1 b.2).2 :: verdictsK (addComponentsK s b.1 b.2).1 bs
+
+theorem witness_refusals :
+    (boot u2 m1).toOption.map (fun s => verdictsK s b1) =
+      some [none, some .dupValue, some .dupValue, some .dupName, some .userError, some .userError] ∧
+    (simulateK sc1 u2 m1 b1).toOption.map (·.log) =
+      some ["clock", "population_manager", "a", "b", "d", "c", "e", "w", "y", "z1"] ∧
+    (simulateK sc1 u2 m1 b1).toOption.map
+        (fun s => ["x.u", "t.k", "s.k", "x.new", "x.never", "y.k", "y.j", "z.a", "z.b", "q.a"].map s.cfg.get) =
+      some [some "77", some "300", some "10", some "8", none, some "1", some "2", some "1", none, none] := by decide
+
+/-- the run of `witness_accepted` with a `setup()` in which the `setup` of `d` raises -/
+def r1 : Option (Sim × Option Err) := (boot u1 m1).toOption.map fun s => setupK sc1 "d" (addManyK s [(t1, .none)])
+
+/-- … managers and `a`, `b`, `d` have been set up (each once, each read the user's values), `c`, `e` never; afterwards
+the configuration is frozen, `setup()` and `add_components` are refused -/
+theorem witness_setup_fault :
+    r1.map (·.2) = some (some .userError) ∧
+    r1.map (·.1.log) = some ["clock", "population_manager", "a", "b", "d"] ∧
+    r1.map (fun r => r.1.seen.map (fun x => x.2.take 2)) = some (List.replicate 5 [some "10", some "300"]) ∧
+    r1.map (·.1.cfg.frozen) = some true ∧
+    r1.map (fun r => (setup sc1 r.1).toOption.isSome) = some false ∧
+    r1.map (fun r => (addComponentsK r.1 [] .none).2) = some (some .constraint) := by decide
+
 /-- "managers first", read from the working tree on every run: `setup_components` sets up
 `self._managers + self._components` in that order, and the context adds the managers before the components -/
 theorem gen_managers_first :
